@@ -535,8 +535,15 @@ fn revocation_key<B: BufRead>(mut i: B) -> Result<SubpacketData> {
 /// Parse a Notation Data subpacket
 /// Ref: https://www.rfc-editor.org/rfc/rfc9580.html#name-notation-data
 fn notation_data<B: BufRead>(mut i: B) -> Result<SubpacketData> {
-    // Flags
-    let readable = i.read_u8().map(|v| v == 0x80)?;
+    // Flags, only "human-readable" is defined, all other flags must be zero.
+    //
+    // Other values are rejected: the parsed form is re-serialized as 0x80/0x00 when the signature
+    // is hashed, so accepting them would use bytes that differ from the ones found in the packet.
+    let readable = match i.read_u8()? {
+        0x80 => true,
+        0x00 => false,
+        flags => bail!("invalid notation data flags {:#04x}", flags),
+    };
     i.read_tag(&[0, 0, 0])?;
     let name_len = i.read_be_u16()?;
     let value_len = i.read_be_u16()?;
